@@ -167,6 +167,28 @@ def run(P, tier="quick"):
                 R.violated(Finding("R23", PROPS, f.file, f.name, anchor, "%s(): %s" % (c.callee, bad), c.line))
             else:
                 R.ok(key, PROPS)
+    # exactly-determined systems go through the LU path: only there an exactly zero pivot yields an exactly
+    # zero determinant (Householder QR leaves ~1e-17 on the diagonal and its rank test does not see it)
+    from .r24_count import depends, EQ_FIELDS, UNK_FIELDS
+    fs = P.need_func("_vnacal_new_solve_simple", "vnacal_new_solve_simple.c")
+    found = False
+    for n in fs.walk():
+        if n.k == "IfStmt":
+            kids = [x for x in n.kids if x is not None]
+            c = kids[0].strip()
+            if c.k == "BinaryOperator" and c.op == "==":
+                a, b = depends(P, fs, c.kids[0]), depends(P, fs, c.kids[1])
+                if (any(x in a for x in EQ_FIELDS) and any(x in b for x in UNK_FIELDS)) or \
+                        (any(x in b for x in EQ_FIELDS) and any(x in a for x in UNK_FIELDS)):
+                    if any(m.k == "CallExpr" and m.callee in DET for m in kids[1].walk()):
+                        found = True
+    if found:
+        R.ok("R23|vnacal_new_solve_simple.c|_vnacal_new_solve_simple|square-systems-use-LU", PROPS)
+    else:
+        R.violated(Finding("R23", PROPS, "vnacal_new_solve_simple.c", "_vnacal_new_solve_simple", "square-systems-use-LU",
+                           "no branch `equations == unknowns` that solves the exactly determined system with an LU-based solver "
+                           "and tests the determinant: duplicated equations then pass the QR rank test and a singular system "
+                           "is not reported", fs.line))
     R.counts["solver_call_sites"] = nsites
     R.check_floor()
     return R
